@@ -1,8 +1,105 @@
-(* C42 — provisional (pre-fix stage) *)
-From PV Require Import Lib.Base Immutable.ChunkList C42.Model.
+(* C42 — property theorems only.  Statements are pinned by props/C42.json.
+
+   d : db is any list of (chunk name, blocks); [considered d] are the chunk files that
+   count as immutable (all but the greatest name, by increasing name), [chain d] their
+   concatenation, [wf_db d]: no considered chunk is empty and slots strictly increase
+   along the chain. *)
+From PV Require Import Lib.Base Immutable.ChunkList Immutable.ChunkListFacts C42.Model C42.Search C42.Proofs.
+From Coq Require Import Sorting.Sorted Sorting.Permutation.
 Open Scope Z_scope.
+
+(* which chunk files are read, and in which order *)
+Theorem chunk_order : forall names,
+  pop_order (build_stack names) = removelast (sort_names names) /\
+  StronglySorted Z.le (sort_names names) /\ Permutation names (sort_names names).
+Proof.
+  intros names. split; [apply pop_order_build_stack|]. split; [apply sort_names_sorted | apply sort_names_perm].
+Qed.
+
+(* read_blocks yields every block of the immutable chunks once, in chain order *)
+Theorem read_all_in_order : forall d,
+  read_blocks d = chain d /\ (wf_db d -> increasing (map bslot (read_blocks d))).
+Proof.
+  intros d. split; [apply read_blocks_chain|]. intros [_ H]. rewrite read_blocks_chain. exact H.
+Qed.
+
+(* chunk_binary_search: never panics; on a well-formed stack it finds the first chunk
+   (greatest names first) whose first slot is <= the slot, None iff there is none *)
+Theorem binary_search_total : forall chunks s,
+  match chunk_binary_search chunks s with
+  | Ok (Some t) => 0 <= t < Z.of_nat (length chunks)
+  | Ok None => True
+  | _ => False
+  end.
+Proof. exact chunk_binary_search_total. Qed.
+
+Theorem binary_search_finds_chunk : forall cs s, wf_chunks cs ->
+  match chunk_binary_search (rev cs) s with
+  | Ok (Some t) => exists pre c post, rev cs = pre ++ c :: post /\ Z.of_nat (length pre) = t /\
+                     chunk_first c <= s /\ Forall (fun c' => s < chunk_first c') pre
+  | Ok None => Forall (fun c => s < chunk_first c) cs
+  | _ => False
+  end.
+Proof. exact binary_search_wf. Qed.
+
+(* a point that exists: the suffix starting at that block *)
+Theorem exact_point_suffix : forall d pre b post, wf_db d -> chain d = pre ++ b :: post ->
+  read_blocks_from_point d (Specific (bslot b) (bhash b)) = Ok (b :: post).
+Proof. exact exact_suffix. Qed.
+
+(* an empty hash: the suffix from the first block at or after the slot — for every
+   slot at or after the first block of the chain (the complement is the known finding) *)
+Theorem fuzzy_point_suffix : forall d s f, wf_db d -> first_slot (chain d) = Some f -> f <= s ->
+  read_blocks_from_point d (Specific s EMPTY_HASH) = Ok (suffix_from_slot s (chain d)).
+Proof. exact fuzzy_suffix. Qed.
+
+(* KNOWN FINDING (pinned by read_blocks_from_point_test): any point whose slot precedes
+   the first block — or any point on an empty chain — is CannotFindBlock, also a fuzzy
+   one, where the property wants the whole chain (resp. the empty suffix). *)
+Theorem fuzzy_below_first_fails : forall d s h, wf_db d ->
+  match first_slot (chain d) with None => True | Some f => s < f end ->
+  read_blocks_from_point d (Specific s h) = Err E_CANNOT_FIND.
+Proof. exact before_first_fails. Qed.
+
 Definition ex_db : db := [(3, [(30, 300, 2)]); (1, [(10, 100, 0); (12, 120, 1)]); (2, [(20, 200, 2)])].
-Theorem fuzzy_below_first_refuted : read_blocks_from_point ex_db (Specific 5 EMPTY_HASH) = Err E_CANNOT_FIND.
-Proof. vm_compute. reflexivity. Qed.
-Theorem absent_beyond_tip_refuted : read_blocks_from_point ex_db (Specific 25 777) = Ok [].
-Proof. vm_compute. reflexivity. Qed.
+Lemma ex_db_wf : wf_db ex_db.
+Proof.
+  split; vm_compute.
+  - repeat constructor; discriminate.
+  - repeat split; repeat constructor.
+Qed.
+
+Theorem fuzzy_below_first_refuted : exists d s, wf_db d /\
+  read_blocks_from_point d (Specific s EMPTY_HASH) <> Ok (suffix_from_slot s (chain d)).
+Proof. exists ex_db, 5. split; [exact ex_db_wf | vm_compute; discriminate]. Qed.
+
+(* an exact point that is not in the chain: an error *)
+Theorem absent_exact_fails : forall d s h, wf_db d -> h <> EMPTY_HASH ->
+  (forall b, In b (chain d) -> ~ (bslot b = s /\ bhash b = h)) ->
+  read_blocks_from_point d (Specific s h) = Err E_CANNOT_FIND.
+Proof. exact absent_fails. Qed.
+
+(* the tip is the last block of the chain *)
+Theorem tip_is_last : forall d, wf_db d ->
+  get_tip d = match chain d with [] => None | b :: r => Some (last (b :: r) b) end.
+Proof. exact tip_last. Qed.
+
+(* Origin: the whole chain if it starts with the genesis block, OriginMissing otherwise *)
+Theorem origin_reads_all : forall d,
+  read_blocks_from_point d Origin =
+  match chain d with
+  | [] => Ok []
+  | b :: _ => if (bslot b =? 0) && (bnum b =? 0) then Ok (chain d) else Err E_ORIGIN_MISSING
+  end.
+Proof. exact origin_spec. Qed.
+
+(* ---- non-vacuity ---- *)
+Example ex_reads :
+  wf_db ex_db /\ chain ex_db = [(10, 100, 0); (12, 120, 1); (20, 200, 2)] /\
+  read_blocks_from_point ex_db (Specific 12 120) = Ok [(12, 120, 1); (20, 200, 2)] /\
+  read_blocks_from_point ex_db (Specific 13 EMPTY_HASH) = Ok [(20, 200, 2)] /\
+  read_blocks_from_point ex_db (Specific 21 EMPTY_HASH) = Ok [] /\
+  read_blocks_from_point ex_db (Specific 21 200) = Err E_CANNOT_FIND /\
+  read_blocks_from_point ex_db (Specific 12 121) = Err E_CANNOT_FIND /\
+  get_tip ex_db = Some (20, 200, 2).
+Proof. split; [exact ex_db_wf|]. vm_compute. repeat split; reflexivity. Qed.
